@@ -411,7 +411,7 @@ pub fn run(ctx: &Ctx, rep: &mut Report) {
     }
     // exhaustive: insert-only sequences over points 0..=5 (15 ranges), replicas fixed
     {
-        let pts: Vec<i64> = (0..=5).map(|p| p * 2 - 5).collect();
+        let pts: Vec<i64> = (0..=5).map(|p| p - 3).collect();
         let mut ranges = vec![];
         for a in 0..pts.len() {
             for b in a + 1..pts.len() {
@@ -421,7 +421,7 @@ pub fn run(ctx: &Ctx, rep: &mut Report) {
         let max_len = ctx.tier.pick(3usize, 4);
         let mut st = Stats::default();
         let mut fails = vec![];
-        let probe: Vec<i64> = (-7..=7).collect();
+        let probe: Vec<i64> = (-5..=5).collect();
         let n = ranges.len();
         let total: usize = (1..=max_len).map(|l| n.pow(l as u32)).sum();
         let mut idx = vec![0usize; max_len];
